@@ -117,20 +117,68 @@ fn run(case: &Val) -> Val {
                 .encoder(Box::new(PatternEncoder::new("{m}{n}")))
                 .build(dir.path().join("active.log"), Box::new(policy))
                 .expect("appender");
+            // What a case does not say and must not matter (changes with every case of the process):
+            //  - a TWIN is alive: a second appender with a trigger built from an equal configuration at the same
+            //    moment, given every record right after the first one (same clock): each trigger has a schedule of
+            //    its own, so the twin fires exactly when the first one does (only without a random delay);
+            //  - every other record is appended from a SECOND THREAD (one worker, alive for the whole case).
+            static TURN: std::sync::atomic::AtomicUsize = std::sync::atomic::AtomicUsize::new(0);
+            let turn = TURN.fetch_add(1, std::sync::atomic::Ordering::SeqCst);
+            let with_twin = turn % 2 == 1 && p[3].n() == 0;
+            let two_threads = turn % 4 >= 2;
+            let tlog2 = Arc::new(Mutex::new(Vec::new()));
+            let dir2 = tempfile::tempdir().expect("tempdir");
+            let twin = if with_twin {
+                log4rs::verif_hooks::set_clock(Some((s0[0].to_z() as i64, s0[1].n() as u32)));
+                let cfg2: TimeTriggerConfig = serde_yaml::from_str(&yaml).expect("config");
+                std::panic::catch_unwind(|| TimeTrigger::new(cfg2)).ok().map(|t| {
+                    let policy = CompoundPolicy::new(
+                        Box::new(SpyTrigger { inner: t, log: tlog2.clone() }),
+                        Box::new(SpyRoller { seen: Arc::new(Mutex::new(Vec::new())) }),
+                    );
+                    RollingFileAppender::builder()
+                        .encoder(Box::new(PatternEncoder::new("{m}{n}")))
+                        .build(dir2.path().join("active.log"), Box::new(policy))
+                        .expect("twin appender")
+                })
+            } else {
+                None
+            };
+            let append_i = |a: &RollingFileAppender, i: usize| {
+                std::panic::catch_unwind(std::panic::AssertUnwindSafe(|| {
+                    a.append(&log::Record::builder().level(log::Level::Info).args(format_args!("{}", i)).build())
+                }))
+            };
+            let (tx, rx) = std::sync::mpsc::channel::<usize>();
+            let (rtx, rrx) = std::sync::mpsc::channel();
             let mut steps = vec![];
+            std::thread::scope(|sc| {
+            let app_ref = &app;
+            let append_ref = &append_i;
+            sc.spawn(move || {
+                for i in rx {
+                    let _ = rtx.send(append_ref(app_ref, i));
+                }
+            });
             for (i, a) in p[5].l().iter().enumerate() {
                 let a = a.l();
                 log4rs::verif_hooks::set_clock(Some((a[0].to_z() as i64, a[1].n() as u32)));
                 tlog.lock().unwrap().clear();
                 seen.lock().unwrap().clear();
-                let r = std::panic::catch_unwind(std::panic::AssertUnwindSafe(|| {
-                    app.append(
-                        &log::Record::builder()
-                            .level(log::Level::Info)
-                            .args(format_args!("{}", i))
-                            .build(),
-                    )
-                }));
+                let r = if two_threads && i % 2 == 1 {
+                    tx.send(i).expect("worker");
+                    rrx.recv().expect("worker result")
+                } else {
+                    append_i(&app, i)
+                };
+                if let (Some(tw), Ok(Ok(()))) = (&twin, &r) {
+                    tlog2.lock().unwrap().clear();
+                    let r2 = append_i(tw, i);
+                    let same = matches!(r2, Ok(Ok(()))) && *tlog2.lock().unwrap() == *tlog.lock().unwrap();
+                    if !same {
+                        steps.push(Val::L(vec![Val::N(9), Val::text("a twin trigger (equal configuration, built at the same moment, same records) decided differently")]));
+                    }
+                }
                 match r {
                     Ok(Ok(())) => {
                         let tl = tlog.lock().unwrap();
@@ -158,6 +206,9 @@ fn run(case: &Val) -> Val {
                     Err(_) => steps.push(Val::L(vec![Val::N(1), Val::N(0), Val::z(0), Val::L(vec![])])),
                 }
             }
+            drop(tx);
+            });
+            drop(twin);
             log4rs::verif_hooks::set_clock(None);
             // what is left in the active file after the last record
             let rest: Vec<Val> = std::fs::read_to_string(dir.path().join("active.log"))
